@@ -25,7 +25,7 @@ MUST_REACH = ["shape:extreme_aspect", "pattern:simple", "pattern:repeat", "patte
 C = 1e3
 GAP_CLAUSES = {"U_orthonormal", "V_orthonormal", "U_orthonormal_range", "V_orthonormal_range", "reconstruction", "eckart_young"}
 
-PATTERNS = ["simple", "geometric", "graded_mid", "graded_wide", "cluster", "repeat2", "repeat3", "all_equal", "zeros1", "zeros2", "zeros_many", "rank1",
+PATTERNS = ["simple", "geometric", "graded_mid", "graded_wide", "near_tie", "cluster", "repeat2", "repeat3", "all_equal", "zeros1", "zeros2", "zeros_many", "rank1",
             "mixed_repeat_zero", "zero_matrix", "unitary", "identity", "scaled_unitary"]
 
 
@@ -130,6 +130,16 @@ def _pattern_svals(rng, pat, N):
         s = gen.spectrum("simple", N, rng, 10.0)
     elif pat == "geometric":
         s = gen.spectrum("geometric", N, rng, float(rng.choice([1e2, 1e4])))
+    elif pat == "near_tie":
+        # two (or three) DISTINCT values at a relative distance 1e-6 .. 1e-10 inside an otherwise simple spectrum: a near-coincidence, not a
+        # coincidence - every value must come back as itself (a comparison with a loose default tolerance would merge them)
+        s = gen.spectrum("simple", N, rng, 10.0)
+        if N >= 2:
+            j = int(rng.integers(0, N - 1))
+            s[j + 1] = s[j] * (1.0 - float(rng.choice([1e-6, 1e-8, 1e-10, 3e-6])))
+            if j + 2 < N and rng.random() < 0.4:
+                s[j + 2] = s[j + 1] * (1.0 - 1e-7)
+            s = np.sort(s)[::-1]
     elif pat == "graded_mid":
         # condition 1e5 .. 3e6: far from rank-deficient, but squared (Gram-matrix shortcuts) it eats half of the digits
         s = gen.spectrum("geometric", N, rng, float(rng.choice([1e5, 1e6, 3e6])))
